@@ -110,6 +110,7 @@ pub async fn worker(
 	Ok(())
 }
 
+#[cfg_attr(watchexec_verif, allow(unused_mut))]
 pub async fn throttle_collect(
 	config: Arc<Config>,
 	events: priority::Receiver<Event, Priority>,
